@@ -299,8 +299,11 @@ def main():
                 "non-trivial = at least one mutating call; distinct by (kind, mutating calls)")
     chk.assumptions = ["the adapter is faithful: it applies each call to its rows as Mgmt.apply_acall does and returns None",
                        "clear_policy is memory-only by design; histories here contain none"]
-    chk.trusted = ["hand-written models coq/theories/{Policy,RoleGraph,Mgmt}.v tied by the differential history correspondence"]
-    chk.build(oracle_name="Mgmt")
+    chk.trusted = ["hand-written models coq/theories/{Policy,RoleGraph,Mgmt}.v tied by the differential history correspondence",
+                   "translator translators/internal.py (casbin/internal_enforcer.py -> coq/gen/InternalGen.v, syntactic, fail-closed, regenerated "
+                   "on this run) + interpreter coq/theories/IntLang.v; InternalTie.v proves the regenerated internal API = Mgmt.v's i_* functions "
+                   "(results, rule lists, adapter calls, notifications) for every configuration; _update_filtered_policies not translated"]
+    chk.build(translators=["internal"], oracle_name="Mgmt")
     if chk.replay_file:
         import json
         c = (json.load(open(chk.replay_file)).get("case") or {})
